@@ -40,7 +40,7 @@ ASSUMPTIONS = [
     "wcslib (astropy.wcs) is the reference reader of the header; an independent evaluator applies AP/BP",
     "sampling allowance: a dense-sample error may exceed the value recorded / requested by 30 % + 2e-11 deg of floating-point noise",
 ]
-PINS = ["gwcs/wcs.py::_fit_2D_poly", "gwcs/wcs.py::_reform_poly_coefficients", "gwcs/wcs.py::_store_2D_coefficients",
+PINS = ["gwcs/wcs.py::WCS.to_fits", "gwcs/wcs.py::_fit_2D_poly", "gwcs/wcs.py::_reform_poly_coefficients", "gwcs/wcs.py::_store_2D_coefficients",
         "gwcs/wcs.py::_make_sampling_grid", "gwcs/wcs.py::_compute_distance_residual", "gwcs/wcs.py::WCS._to_fits_sip",
         "gwcs/wcs.py::WCS.to_fits_sip"]
 HEADER = ("From Coq Require Import ZArith QArith List Bool. Import ListNotations.\n"
@@ -471,6 +471,45 @@ def run(ctx):
     if bads:
         problems.append(("_store_2D_coefficients writes a different set of A_i_j keywords than mindeg < i+j <= degree",
                          {"case": terms_s[bads[0]]}, None))
+    # ---------- (b2) axis bookkeeping of the header vs SipHeader.v ---------------------------------
+    ctx.coq_theorems("C10/SipHeader", ["sip_cards_distinct", "naxis_from_pair_axes", "compact_axes", "kept_axes", "lon_lat_not_swapped"])
+    terms_h, meta_h = [], []
+    for _ in range(10 if ctx.quick else 120):
+        p, kw = gen_params(rng, ctx.quick)
+        p["order"], p["amp"] = 1, 0
+        # three image axes of different lengths, so that a size taken from the wrong axis shows
+        p["nx"], p["ny"] = rng.choice([200, 320]), rng.choice([100, 150])
+        w, pix_axes, cel_axes = build(rng, p)
+        lon_axis, lat_axis = (cel_axes if not p["swap"] else (1, 0))
+        for keep in (False, True):
+            try:
+                with warnings.catch_warnings():
+                    warnings.simplefilter("ignore")
+                    hdr = (w.to_fits(degree=1, sampling=5)[0] if keep else w.to_fits_sip(degree=1))
+            except Exception as e:  # noqa: BLE001
+                problems.append((f"{'to_fits' if keep else 'to_fits_sip'} raised {type(e).__name__}: {str(e)[:100]}", {"params": p}, None))
+                continue
+            ct = {int(k[5:]): hdr[k] for k in hdr if k.startswith("CTYPE") and k[5:].isdigit()}
+            nlon = [i for i, v in ct.items() if v[:4] in ("RA--", "GLON")]
+            nlat = [i for i, v in ct.items() if v[:4] in ("DEC-", "GLAT")]
+            crp = sorted(int(k[5:]) for k in hdr if k.startswith("CRPIX") and k[5:].isdigit() and int(k[5:]) in
+                         ([pix_axes[0] + 1, pix_axes[1] + 1] if keep else [1, 2]))
+            obs = [nlon[0] if len(nlon) == 1 else -1, nlat[0] if len(nlat) == 1 else -1] + (crp if len(crp) == 2 else [-1, -1])
+            sizes_ok = True
+            if obs[2] > 0:
+                box = w.bounding_box.bounding_box(order="F")
+                sizes_ok = (hdr.get(f"NAXIS{obs[2]}") == int(box[pix_axes[0]][1]) + 1 and hdr.get(f"NAXIS{obs[3]}") == int(box[pix_axes[1]][1]) + 1)
+                if not sizes_ok:
+                    problems.append((f"NAXIS{obs[2]}/NAXIS{obs[3]} = {hdr.get(f'NAXIS{obs[2]}')}, {hdr.get(f'NAXIS{obs[3]}')} are not the sizes of the "
+                                     f"pixel axes {pix_axes} that feed the celestial pair (box {box})", {"params": p, "keep_axis_position": keep}, None))
+            terms_h.append(f"({gbool(keep)}, {gz(lon_axis)}, {gz(lat_axis)}, {gz(pix_axes[0])}, {gz(pix_axes[1])}, {glist([gz(v) for v in obs])}, {gbool(sizes_ok)})")
+            meta_h.append(dict(embed=p["embed"], swap=p["swap"], keep=keep, observed=obs))
+            ctx.case(key=("hdr-axes", p["embed"], p["swap"], keep), nontrivial=bool(p["embed"] or p["swap"] or keep), kind="header-axes")
+    badh = ctx.coq_failing("c10_axes", "From Coq Require Import ZArith List Bool. Import ListNotations. Open Scope Z_scope.\nFrom GW Require Import C10.SipHeader.\n",
+                           terms_h, "(fun c => let '(keep, lon, lat, p1, p2, obs, ok) := c in ok && "
+                           "(fix eq (a b : list Z) := match a, b with [], [] => true | x :: r, y :: s => (x =? y) && eq r s | _, _ => false end) "
+                           "(axes_list keep lon lat p1 p2) obs)")
+    ctx.oblige("correspondence:axis numbers and NAXIS sources of the exported header == SipHeader.v", badh == [], f"{[meta_h[i] for i in (badh or [])[:3]]}")
     # ---------- (c) the property on the implementation -------------------------------------------
     n = 60 if ctx.quick else 1500
     for k in range(n):
